@@ -855,7 +855,21 @@ func fixedCases() []Case {
 	c2 := g.assemble("fixed/seq-wrap-psh", [][]*Pkt{w}, 16, true, 0)
 	pr := []*Pkt{mkTCP(true, 301, 0x10, 100), mkTCP(true, 201, 0x10, 100), mkTCP(true, 101, 0x10, 100), mkTCP(true, 1, 0x10, 150)}
 	c3 := g.assemble("fixed/prepend-chain", [][]*Pkt{pr}, 16, true, 0)
-	return []Case{c, c2, c3}
+	// a larger segment lining up in front of an item that already holds two smaller ones:
+	// must NOT be prepended (gsoSize would be raised and the kernel would cut at wrong boundaries)
+	lp := []*Pkt{mkTCP(false, 151, 0x10, 100), mkTCP(false, 251, 0x10, 100), mkTCP(false, 1, 0x10, 150)}
+	c4 := g.assemble("fixed/larger-prepend-onto-two", [][]*Pkt{lp}, 16, true, 0)
+	// a UDP candidate with a bad checksum between two good ones of its flow: it must get its own
+	// item so that the third is not merged into the first (order)
+	ud := func(n int, bad bool) *Pkt {
+		return &Pkt{Proto: 17, Src: 1, Dst: 2, Sport: 7, Dport: 8, TTL: 64, Payload: make([]byte, n), BadL4: bad}
+	}
+	c5 := g.assemble("fixed/udp-bad-checksum-in-the-middle", [][]*Pkt{{ud(100, false), ud(100, true), ud(100, false)}}, 16, true, 0)
+	u6 := func(n int, bad bool) *Pkt {
+		return &Pkt{V6: true, Proto: 17, Src: 1, Dst: 2, Sport: 7, Dport: 8, TTL: 64, Payload: make([]byte, n), BadL4: bad}
+	}
+	c6 := g.assemble("fixed/udp6-bad-checksum-in-the-middle", [][]*Pkt{{u6(100, false), u6(100, true), u6(100, false), u6(40, false)}}, 16, true, 0)
+	return []Case{c, c2, c3, c4, c5, c6}
 }
 
 // ---------------------------------------------------------------------------
